@@ -80,7 +80,7 @@ def lemmas(ev: Any) -> tuple[list[Any], list[str], dict[str, Any]]:
             if st["complete"] != "unsat":
                 harness.append(f"C06-RE: path partition of {name} not complete ({st['complete']})")
     except (symlen.HarnessError, re2smt.TranslationRefused, Exception) as e:  # noqa: BLE001
-        return [], [f"C06-RE: a predicate could not be lifted: {type(e).__name__}: {e}"], {"status": "refused"}
+        return [], [], {"status": "refused", "reason": f"{type(e).__name__}: {e}"[:300]}
 
     def solver(*cons: Any) -> Any:
         s = z3.Solver()
